@@ -178,4 +178,14 @@ class PickleSpy:
                 return real_loads(data, *a, **kw)
             spy._real = type('RealPickle', (), {'loads': staticmethod(real_loads), 'dumps': staticmethod(pickle.dumps)})
             pickle.loads, pickle.load = loads, load
+            # code that builds its own (restricted) unpickler subclasses pickle.Unpickler: the class it finds records as well
+            import io
+            real_unpickler = pickle.Unpickler
+
+            class Unpickler(real_unpickler):
+                def __init__(self, file, *a, **kw):
+                    data = file.read()
+                    spy.loads_calls.append(bytes(data))
+                    super().__init__(io.BytesIO(data), *a, **kw)
+            pickle.Unpickler = Unpickler
         return cls._global
